@@ -74,6 +74,8 @@ def check_linearity(case, r: R):
         r.cls('complex-factor')
     if abs(complex(*a)) < 1e-8:
         r.cls('tiny-factor')
+    if case.get('keep_by_value'):
+        r.cls('exemption-list-of-equal-copies')
     r.cls(f'parts={min(len(groups), 4)}', 'current-sources-zeroed-first' if case.get('order') else 'voltage-sources-zeroed-first')
     N = full = None
     with r.lib('solve'):
@@ -107,6 +109,9 @@ def check_linearity(case, r: R):
     for g in groups + ['none']:
         keep_ids = {i for i, p in part_of.items() if p == g}
         keep = [N[i].element for i in keep_ids]
+        if case.get('keep_by_value'):
+            # elements are frozen value objects: an equal element (re-created, loaded again) designates the same source
+            keep = [copy.copy(e) for e in keep]
         keep_before = list(keep)
         pnet = partial(net, keep_ids)
         zn = None
@@ -226,7 +231,8 @@ def linearity_case(draw):
                        st.sampled_from([[-1.0, 0.0], [0.0, 1.0], [2.0, 0.0], [0.5, -0.5]]),
                        st.sampled_from([[1e-9, 0.0], [0.0, -3e-12], [2e-15, 1e-15], [-4e-10, 0.0], [1e7, 0.0]])))
     parts = draw(st.lists(st.sampled_from([0, 1, 2, 3, 1, 0]), min_size=6, max_size=6))
-    return {'net': net, 'a': a, 'parts': parts, 'order': draw(st.booleans()), 'removal_route': draw(st.sampled_from([False, True]))}
+    return {'net': net, 'a': a, 'parts': parts, 'order': draw(st.booleans()), 'removal_route': draw(st.sampled_from([False, True])),
+            'keep_by_value': draw(st.sampled_from([False, False, True]))}
 
 
 TESTS = [
